@@ -111,7 +111,7 @@ def assign_nd(ctx, shape, lkinds, kinds, rhs='scalar', via='setitem', inplace=Tr
     r = ctx.call(f)
     if absent:
         ok = ctx.AND(r == ('exc', 'IndexError'), same(ctx, a, ref, attrs=attrs))
-        return ctx.done(ok, [r[1] if r[0] != 'ok' else None, ctx.observe(a)])
+        return ctx.done(ok, [r[1] if r[0] != 'ok' else None, ctx.observe(a)], inplace=True)
     if r[0] != 'ok':
         return ctx.done(False, r[1])
     res = a if inplace else r[1]
@@ -141,7 +141,7 @@ def assign_nd(ctx, shape, lkinds, kinds, rhs='scalar', via='setitem', inplace=Tr
         oks.append(False)
     else:
         oks.append(same(ctx, rb[1], Ref(dims, labels, exp).select(sel)))
-    return ctx.done(ctx.AND(*oks), [ctx.observe(res), ctx.observe(a)])
+    return ctx.done(ctx.AND(*oks), [ctx.observe(res), ctx.observe(a)], inplace=True)
 
 
 def _off(pos, shape):
@@ -193,7 +193,7 @@ def assign_mask_nd(ctx, shape, rhs, via, inplace, dkind='f', vkind='f', cast=Fal
     oks = [same(ctx, res, Ref(dims, labels, exp))]
     if not inplace:
         oks.append(same(ctx, a, ref))
-    return ctx.done(ctx.AND(*oks), [ctx.observe(res), ctx.observe(a)])
+    return ctx.done(ctx.AND(*oks), [ctx.observe(res), ctx.observe(a)], inplace=True)
 
 
 def cast_pairs(ctx, akind, vkind, cast, via, inplace=True, rhs='scalar'):
@@ -225,7 +225,7 @@ def cast_pairs(ctx, akind, vkind, cast, via, inplace=True, rhs='scalar'):
     if r[0] != 'ok':
         # without cast numpy may refuse (str into a float array): allowed, but then nothing may have changed
         if not cast and r[1] in ('ValueError', 'TypeError'):
-            return ctx.done(same(ctx, a, Ref(['x'], [labels], cells)), [r[1], ctx.observe(a)])
+            return ctx.done(same(ctx, a, Ref(['x'], [labels], cells)), [r[1], ctx.observe(a)], inplace=True)
         return ctx.done(False, r[1])
     res = a if inplace else r[1]
     exp = list(cells)
@@ -237,11 +237,11 @@ def cast_pairs(ctx, akind, vkind, cast, via, inplace=True, rhs='scalar'):
         got = res.values.tolist()
         oks = [ctx.eq(got[k], exp[k]) for k in range(n) if k != i and not (via == 'putlist' and k == j)]
         oks.append(ctx.eqlist(res.axes[0].values.tolist(), labels))
-        return ctx.done(ctx.AND(*oks), ctx.observe(res))
+        return ctx.done(ctx.AND(*oks), ctx.observe(res), inplace=True)
     oks = [same(ctx, res, Ref(['x'], [labels], exp))]
     if not inplace:
         oks.append(same(ctx, a, Ref(['x'], [labels], cells), check_kind=akind))
-    return ctx.done(ctx.AND(*oks), [ctx.observe(res), ctx.observe(a)])
+    return ctx.done(ctx.AND(*oks), [ctx.observe(res), ctx.observe(a)], inplace=True)
 
 
 def _value_preserving(akind, vkind):
@@ -262,7 +262,7 @@ def values_setter(ctx, dkind, vkind):
     r = ctx.call(f)
     if r[0] != 'ok':
         return ctx.done(False, r[1])
-    return ctx.done(same(ctx, a, Ref(dims, labels, vs)), ctx.observe(a))
+    return ctx.done(same(ctx, a, Ref(dims, labels, vs)), ctx.observe(a), inplace=True)
 
 
 def templates():
